@@ -419,8 +419,9 @@ class ResponseHandler(BaseProtocol, DataQueue[tuple[RawResponseMessage, StreamRe
             # EMPTY_PAYLOAD
             if payload is not EMPTY_PAYLOAD:
                 payload.on_eof(self._drop_timeout)
-            else:
+            elif self._final_response_seen:
                 self._drop_timeout()
+            # (after an interim response the final one is still awaited)
 
         if upgraded and tail:
             self.data_received(tail)
